@@ -774,26 +774,56 @@ def _ends(repo, col, R="R-C01-ends"):
     v2, n2 = found[2]
     col.check(v2.eq(Cu), R, fi, "type-2 edge: branch point -> first compartment of the child",
               "sink = cumsum_ncomp[child]", f"type-2 sink is {v2}: not the first compartment Cu[b] of the child", node=n2)
-    # types 3/4 are the transposes of 1/2
-    src = unparse(fi.node)
-    ok3 = "parent_to_branchpoint_edges = branchpoint_to_parent_edges.rename(columns={'sink': 'source', 'source': 'sink'})" in src
-    ok4 = "child_to_branchpoint_edges = branchpoint_to_child_edges.rename(columns={'sink': 'source', 'source': 'sink'})" in src
-    t3 = "parent_to_branchpoint_edges['type'] = 3" in src and "child_to_branchpoint_edges['type'] = 4" in src
-    col.check(ok3 and ok4 and t3, R, fi, "types 3/4 are the reversed type-1/2 edges", "rename sink<->source, type 3 / 4",
-              "the compartment-to-branchpoint edges are not the reversed branchpoint-to-compartment edges", node=fi.node)
+    # types 3/4 are the transposes of 1/2: a block `X.rename(columns={sink<->source})` retagged with its own type, X being the
+    # type-1 / type-2 block -- on terms, whatever the temporaries are called
+    exc = idxm.expander(repo, fi)
+    dict_blocks = {}
+    terms_ = [s_.value for s_ in exc.stores if s_.value is not None]
+    for t_ in terms_:
+        for x in t_.walk():
+            if x.op == "dict":
+                d = {kv.args[0].name: kv.args[1] for kv in x.args if kv.args and kv.args[0].op == "const"}
+                if {"source", "sink", "type"} <= set(d) and d["type"].op == "const" and d["type"].name in (1, 2):
+                    dict_blocks[d["type"].name] = (x, d)
+    rev = []
+    for s_ in exc.stores:
+        if s_.kind == "sub" and s_.key.op == "const" and s_.key.name == "type" and s_.value.op == "const" and isinstance(s_.value.name, int):
+            rn = s_.base if (s_.base.op == "mcall" and s_.base.name == "rename") else T.find(s_.base, lambda y: y.op == "mcall" and y.name == "rename")
+            if rn is None:
+                continue
+            cols = rn.kw.get("columns")
+            swap = cols is not None and cols.op == "dict" and \
+                {(kv.args[0].name, kv.args[1].name) for kv in cols.args if kv.args[0].op == "const" and kv.args[1].op == "const"} == \
+                {("sink", "source"), ("source", "sink")}
+            inner = next((k_ for k_, (dt, _d) in dict_blocks.items() if T.find(rn.args[0], lambda y: y is dt or y.key() == dt.key()) is not None), None)
+            rev.append((s_.value.name, swap, inner))
+    ok = sorted(rev, key=str) == [(3, True, 1), (4, True, 2)]
+    col.add(R, fi, "types 3/4 are the reversed type-1/2 edges", "DISCHARGED" if ok else ("VIOLATED" if len(rev) >= 2 else "UNDECIDED"),
+            "rename sink<->source of the type-1 block tagged 3, of the type-2 block tagged 4" if ok else
+            f"the compartment-to-branchpoint edges are built as {rev} (type tag, columns swapped, reversed block of type): they must be the "
+            f"reversed branchpoint-to-compartment edges of the parent (3 <- 1) and of the child (4 <- 2)", node=fi.node)
     # branch-point node index: parents -> arange + offset, children -> child_belongs_to_branchpoint + offset
-    srcs = {}
-    for n in ast.walk(fi.node):
-        if isinstance(n, ast.Dict):
-            keys = [k.value if isinstance(k, ast.Constant) else None for k in n.keys]
-            if "source" in keys and "type" in keys:
-                tv = n.values[keys.index("type")]
-                if isinstance(tv, ast.Constant) and tv.value in (1, 2):
-                    srcs[tv.value] = unparse(n.values[keys.index("source")])
-    ok = "np.arange(len(self._par_inds)) + self.cumsum_ncomp[-1]" == srcs.get(1) and \
-        "self._child_belongs_to_branchpoint + self.cumsum_ncomp[-1]" == srcs.get(2)
-    col.check(ok, R, fi, "branch-point node ids: k-th unique parent <-> branch point k, children by their parent's rank",
-              str(srcs), f"branch-point sources are {srcs}", node=fi.node)
+    from sa.termalg import term_rat as _trat
+
+    def bp_leaf(x):
+        if x.op == "mcall" and x.name == "arange" and len(x.args) == 2 and x.args[1].op == "call" and x.args[1].name == "len" and \
+                x.args[1].args[0].op == "attr" and x.args[1].args[0].name == "_par_inds":
+            return Rat.atom("k")
+        if x.op == "attr" and x.name == "_child_belongs_to_branchpoint":
+            return Rat.atom("bp_of_child")
+        if x.op == "sub" and x.args[0].op == "attr" and x.args[0].name == "cumsum_ncomp" and ((x.args[1].op == "const" and x.args[1].name == -1) or
+                 (x.args[1].op == "unary" and x.args[1].name == "USub" and x.args[1].args[0].op == "const" and x.args[1].args[0].name == 1)):
+            return Rat.atom("N")
+        return None
+    try:
+        s1 = _trat(dict_blocks[1][1]["source"], bp_leaf) if 1 in dict_blocks else None
+        s2 = _trat(dict_blocks[2][1]["source"], bp_leaf) if 2 in dict_blocks else None
+        ok = s1 is not None and s2 is not None and s1.eq(Rat.atom("k") + Rat.atom("N")) and s2.eq(Rat.atom("bp_of_child") + Rat.atom("N"))
+        col.check(ok, R, fi, "branch-point node ids: k-th unique parent <-> branch point k, children by their parent's rank",
+                  "source = N + k (parents), N + branch point of the child (children), N = number of compartments",
+                  f"branch-point sources are {s1} (parents) and {s2} (children); expected N + k and N + bp_of_child", node=fi.node)
+    except Und as e:
+        col.unk(R, fi, "branch-point node ids", f"outside the analysable fragment: {e}", node=fi.node)
     # columns of children_in_level / parents_in_level: (branch, branch point)
     mfi = repo.func("jaxley/utils/cell_utils.py", "compute_morphology_indices_in_levels")
     exm = idxm.expander(repo, mfi)
@@ -1157,17 +1187,59 @@ def _levels(repo, col):
     CUF = "jaxley/utils/cell_utils.py"
     # compute_levels: level(root) = 0, level(child) = level(parent) + 1
     fi = repo.func(CUF, "compute_levels")
-    asg = {}
-    for n in ast.walk(fi.node):
-        if isinstance(n, ast.Assign) and isinstance(n.targets[0], ast.Subscript) and unparse(n.targets[0].value) == "levels":
-            asg[unparse(n.value).replace(" ", "")] = n
-    ok = set(asg) == {"0", "levels[p]+1"}
-    wrong = bool(asg) and not ok and all(k in ("0", "1") or k.startswith("levels[p]") for k in asg)
-    col.add(R, fi, "compute_levels: root 0, child = level(parent) + 1", "DISCHARGED" if ok else ("VIOLATED" if wrong else "UNDECIDED"),
-            str(sorted(asg)) if ok else f"levels are assigned as {sorted(asg)}: a branch must be exactly one level below its parent", node=fi.node)
-    g = next((n for n in ast.walk(fi.node) if isinstance(n, ast.If)), None)
-    col.check(g is not None and unparse(g.test).replace(" ", "") == "p==-1", R, fi, "compute_levels: roots are the branches without parent",
-              "p == -1", f"root test is {unparse(g.test) if g else None}", node=g or fi.node)
+    from sa.termalg import term_rat
+    exl = idxm.expander(repo, fi)
+    from sa.terms import fuse_comprehensions as _fuse
+
+    def _is_minus_one(t):
+        return (t.op == "const" and t.name == -1) or (t.op == "unary" and t.name == "USub" and t.args[0].op == "const" and t.args[0].name == 1)
+
+    root_v = child_v = None
+    root_guard_ok = None
+    for s_ in exl.stores:
+        if s_.kind != "sub" or s_.value is None:
+            continue
+        key = _fuse(s_.key)
+        gs = [g for g in s_.guards if g.op != "loop"]
+        if len(gs) != 1:
+            continue
+        g = gs[0]
+        neg = False
+        while g.op == "not":
+            neg = not neg
+            g = g.args[0]
+        if g.op != "cmp" or g.name not in ("==", "!=", "<", ">=") or len(g.args) != 2:
+            continue
+        gf = [_fuse(a_) for a_ in g.args]
+        par = next((a_ for a_ in gf if a_.op in ("elem", "item", "sub") and T.find(a_, lambda x: x.op == "param" and x.name == fi.params[0]) is not None), None)
+        cst = next((a_ for a_ in gf if a_ is not par), None)
+        if par is None or cst is None:
+            continue
+        # is this the "no parent" branch?
+        if g.name in ("==", "!="):
+            is_root = (g.name == "==") != neg
+            root_guard_ok = _is_minus_one(cst)
+        else:  # p < 0  /  p >= 0
+            is_root = (g.name == "<") != neg
+            root_guard_ok = cst.op == "const" and cst.name == 0
+        v = _fuse(s_.value)
+        if is_root:
+            root_v = v
+        else:
+            # level of the parent + 1: the same table, subscripted with the parent of THIS branch
+            try:
+                form = term_rat(v, lambda x: Rat.atom("L[p]") if (x.op == "sub" and x.args[0].key() == s_.base.key() and _fuse(x.args[1]).key() == par.key()) else None)
+                child_v = form
+            except Und:
+                child_v = None
+    ok = root_v is not None and root_v.op == "const" and root_v.name == 0 and child_v is not None and child_v.eq(Rat.atom("L[p]") + ONE)
+    und = root_v is None or child_v is None
+    col.add(R, fi, "compute_levels: root 0, child = level(parent) + 1", "DISCHARGED" if ok else ("UNDECIDED" if und else "VIOLATED"),
+            "levels[i] = 0 for roots, levels[parent] + 1 otherwise" if ok else
+            f"levels are assigned as root: {root_v.short(30) if root_v is not None else None}, child: {child_v}: a branch must be exactly one "
+            f"level below its parent", node=fi.node)
+    col.check(bool(root_guard_ok), R, fi, "compute_levels: roots are the branches without parent",
+              "parent == -1", "the root test of compute_levels is not `parent == -1`", node=fi.node)
     # compute_children_in_level / compute_parents_in_level: decided on the building blocks that occur in the function's terms
     # (row selected, filter condition, range of levels), whether written as nested loops with append or as comprehensions
     from sa.termalg import term_rat
